@@ -362,13 +362,26 @@ def _visit_fake(cfg):
     from torch.testing._internal.distributed.fake_pg import FakeStore
 
     recs = []
-    for r in range(cfg["W"]):
+    W = cfg["W"]
+    # the environment a launcher (torchrun) gives each process; for half the groups the job spans two nodes, so the
+    # LOCAL rank differs from the rank in the group
+    per_node = max(1, W // 2) if (cfg["N"] + W) % 2 == 0 else W
+    for r in range(W):
         assert not dist.is_initialized()
-        dist.init_process_group("fake", store=FakeStore(), rank=r, world_size=cfg["W"])
+        launcher = {"RANK": r, "WORLD_SIZE": W, "LOCAL_RANK": r % per_node, "LOCAL_WORLD_SIZE": per_node,
+                    "GROUP_RANK": r // per_node, "NODE_RANK": r // per_node}
+        saved = {k: os.environ.get(k) for k in launcher}
+        os.environ.update({k: str(v) for k, v in launcher.items()})
+        dist.init_process_group("fake", store=FakeStore(), rank=r, world_size=W)
         try:
             recs.append(R.collect(cfg))
         finally:
             dist.destroy_process_group()
+            for k, v in saved.items():
+                if v is None:
+                    os.environ.pop(k, None)
+                else:
+                    os.environ[k] = v
     return recs
 
 
@@ -425,9 +438,12 @@ def _execute_gloo(case, mon):
             out = os.path.join(tmp, "rank%d.json" % r)
             outs.append(out)
             log = open(os.path.join(tmp, "rank%d.log" % r), "w")
+            per_node = max(1, W // 2) if case["plan"] % 2 == 0 else W
+            renv = dict(env, RANK=str(r), WORLD_SIZE=str(W), LOCAL_RANK=str(r % per_node),
+                        LOCAL_WORLD_SIZE=str(per_node), GROUP_RANK=str(r // per_node))
             procs.append((subprocess.Popen(
                 [sys.executable, os.path.abspath(R.__file__), src, os.path.join(tmp, "rendezvous"), str(r), str(W),
-                 cfgp, out], env=env, stdout=log, stderr=log, cwd=tmp), log))
+                 cfgp, out], env=renv, stdout=log, stderr=log, cwd=tmp), log))
         deadline = time.time() + 150
         timed_out = False
         for p, log in procs:
